@@ -123,7 +123,9 @@ class SLCDevice(rt.Device):
         fnc = body[0]
         entry["fnc"] = fnc
         if self.force_sts is not None:
-            return reply(self.force_sts)
+            # an error reply may carry bytes after STS: the EXT STS byte (with STS 0xF0), padded to a word, or a reply padded to the
+            # size that was asked for - none of it is data
+            return reply(self.force_sts, getattr(self, "force_sts_data", b"") or b"")
         if fnc not in (0xA2, 0xAB):
             return reply(STS_ILLEGAL)
         try:
